@@ -26,7 +26,7 @@
    the shorter identifier list with "" and comparePrePart puts "" below every identifier, which
    is the lexicographic order on the lists without their trailing empty identifiers, "" being
    the least identifier ([embed]: "" -> 0, the number n -> n+1, other strings unchanged).  The
-   literal loop is [go_compare_prerelease]; TagsProofs.v proves the two equal. *)
+   literal text is [go_compare_prerelease] / [go_scompare]; TagsProofs.v proves the two equal. *)
 From Coq Require Import List String Ascii Bool NArith.
 From Helm Require Import Misc.Semver Misc.Index.
 Import ListNotations.
@@ -127,6 +127,16 @@ Fixpoint go_pre_loop (s o : list string) : comparison :=
 Definition go_compare_prerelease (v o : string) : comparison :=
   go_pre_loop (split_on "." v) (split_on "." o).
 
+(* Version.Compare as it is written, on strict versions *)
+Definition go_scompare (a b : sversion) : comparison :=
+  lex (s_major a ?= s_major b)%N
+    (lex (s_minor a ?= s_minor b)%N
+       (lex (s_patch a ?= s_patch b)%N
+          (if str_is_empty (s_pre a) && str_is_empty (s_pre b) then Eq
+           else if str_is_empty (s_pre a) then Gt
+           else if str_is_empty (s_pre b) then Lt
+           else go_compare_prerelease (s_pre a) (s_pre b)))).
+
 (* keys *)
 Fixpoint strip_trailing_empty (l : list string) : list string :=
   match l with
@@ -226,3 +236,33 @@ Section WithConstraints.
              (pages : list (list string)) (ver : string) : vr_result :=
     validate_reference_tags (client_tags sort pages) ver.
 End WithConstraints.
+
+(* ---- specification vocabulary (used by the statements in Props/C18.v) ---- *)
+
+Definition all_nonempty (s : string) : bool :=
+  forallb (fun p => negb (str_is_empty p)) (split_on "." s).
+
+(* no empty identifier: the versions NewVersion can read back *)
+Definition sregular (s : sversion) : bool :=
+  (str_is_empty (s_pre s) || all_nonempty (s_pre s)) &&
+  (str_is_empty (s_meta s) || all_nonempty (s_meta s)).
+
+(* the version NewVersion reads from the rendering of a regular strict version *)
+Definition to_version (s : sversion) : version :=
+  mkVersion (s_major s) (s_minor s) (s_patch s)
+            (if str_is_empty (s_pre s) then [] else idents (s_pre s))
+            (s_meta s) (sstring s).
+
+(* the tags of all pages, as Client.Tags renders them, in listing order *)
+Definition all_tags (pages : list (list string)) : list string := map sstring (collected pages).
+
+(* two answers are the same answer: the same error, the same tag, or two tags of one
+   precedence class (equal up to build metadata) *)
+Definition tag_equiv (r r' : tag_result) : Prop :=
+  match r, r' with
+  | TOk t, TOk t' => t = t' \/ (tge t t' /\ tge t' t)
+  | TErrConstraint, TErrConstraint => True
+  | TErrNotFound, TErrNotFound => True
+  | _, _ => False
+  end.
+
